@@ -39,6 +39,11 @@ type script struct {
 	KeyID  string  `json:"key_id"`
 	Desc   reqDesc `json:"descriptor"`
 
+	AnnEmptyMap bool   `json:"annotations_empty_map,omitempty"` // requested annotations are an empty, non-nil map
+	CapOrder    int    `json:"capability_order,omitempty"`      // order in which the capabilities are listed
+	NilAnswers  bool   `json:"nil_slices,omitempty"`            // empty chain / signature / envelope answered as nil
+	Hist        string `json:"history,omitempty"`               // "h<k>/<step>": step of a history on ONE long-lived signer
+
 	MetaErr bool `json:"metadata_error,omitempty"`
 	CapRaw  bool `json:"cap_raw"`
 	CapEnv  bool `json:"cap_envelope"`
@@ -112,12 +117,26 @@ func (p *plugin) GetMetadata(ctx context.Context, req *pl.GetMetadataRequest) (*
 	if p.s.MetaErr {
 		return nil, errMeta
 	}
-	caps := []pl.Capability{pl.CapabilityTrustedIdentityVerifier}
+	var caps []pl.Capability
 	if p.s.CapEnv {
 		caps = append(caps, pl.CapabilityEnvelopeGenerator)
 	}
 	if p.s.CapRaw {
 		caps = append(caps, pl.CapabilitySignatureGenerator)
+	}
+	switch p.s.CapOrder % 4 {
+	case 0: // verifier capability first, envelope before raw
+		caps = append([]pl.Capability{pl.CapabilityTrustedIdentityVerifier}, caps...)
+	case 1: // raw before envelope, verifier last
+		for i, j := 0, len(caps)-1; i < j; i, j = i+1, j-1 {
+			caps[i], caps[j] = caps[j], caps[i]
+		}
+		caps = append(caps, pl.CapabilityRevocationCheckVerifier)
+	case 2: // signing capabilities only
+	case 3: // verifier in the middle, a capability listed twice
+		if len(caps) > 0 {
+			caps = append(caps[:1:1], append([]pl.Capability{pl.CapabilityTrustedIdentityVerifier}, caps[0:]...)...)
+		}
 	}
 	return &pl.GetMetadataResponse{Name: "vh", Version: "1.0.0", Description: "d", URL: "u", SupportedContractVersions: []string{"1.0"}, Capabilities: caps}, nil
 }
@@ -169,6 +188,35 @@ func chainFor(kind string, id *identity) [][]byte {
 		return der(expiredChain)
 	case "selfsigned":
 		return der(selfSigned.chain)
+	case "deep":
+		return der(deepChain)
+	}
+	// deep-<op>@<i>: the three-certificate chain with the odd element at position i
+	var op string
+	var i int
+	if n, _ := fmt.Sscanf(strings.ReplaceAll(kind, "@", " "), "deep-%s %d", &op, &i); n == 2 {
+		c := der(deepChain)
+		bad := deepChain[0].C.Raw[:40]
+		switch op {
+		case "garbage": // unparsable bytes instead of certificate i
+			c[i] = bad
+		case "insgarbage": // unparsable bytes inserted before position i
+			c = append(c[:i:i], append([][]byte{bad}, c[i:]...)...)
+		case "foreign": // a certificate of another hierarchy instead of certificate i
+			c[i] = foreignCert.C.Raw
+		case "insforeign":
+			c = append(c[:i:i], append([][]byte{foreignCert.C.Raw}, c[i:]...)...)
+		case "drop":
+			c = append(c[:i:i], c[i+1:]...)
+		case "dup": // certificate i twice
+			c = append(c[:i:i], append([][]byte{c[i]}, c[i:]...)...)
+		case "swap": // certificates i and (i+1) mod 3 exchanged
+			j := (i + 1) % 3
+			c[i], c[j] = c[j], c[i]
+		default:
+			panic("chain kind " + kind)
+		}
+		return c
 	}
 	panic("chain kind " + kind)
 }
@@ -200,6 +248,14 @@ func (p *plugin) GenerateSignature(ctx context.Context, req *pl.GenerateSignatur
 		sig = sig[:len(sig)-1]
 	}
 	chain := chainFor(p.s.GSChain, id)
+	if p.s.NilAnswers {
+		if len(chain) == 0 {
+			chain = nil
+		}
+		if len(sig) == 0 {
+			sig = nil
+		}
+	}
 	// facts, asked from crypto/x509, notation-core-go and crypto
 	f.keyID = p.s.GSKeyID
 	f.chainDER = chain
@@ -247,6 +303,9 @@ func (p *plugin) GenerateEnvelope(ctx context.Context, req *pl.GenerateEnvelopeR
 		env = []byte("not an envelope")
 	} else if p.s.GECorrupt == "empty" {
 		env = []byte{}
+		if p.s.NilAnswers {
+			env = nil
+		}
 	} else {
 		var err error
 		env, err = buildEnvelope(p.s.GEFormat, id, chain, payload, p.s.GECtype, p.now)
@@ -357,14 +416,34 @@ func digestBits(a digest.Algorithm) int64 {
 }
 
 // runCase executes the script on the real signer and returns the Gallina term.
-func runCase(id int64, s *script, now time.Time) (term string, key string, nontrivial bool, ok bool) {
-	p := &plugin{s: s, now: now}
-	desc := ocispec.Descriptor{MediaType: s.Desc.MT, Digest: digest.Digest(s.Desc.DG), Size: s.Desc.Size, Annotations: s.Desc.Ann,
-		URLs: []string{"https://dropped.by.sanitize"}}
-	ps, err := signer.NewPluginSigner(p, s.KeyID, map[string]string{"cfg": "1"})
+// session is ONE long-lived PluginSigner with its plugin: the steps of a
+// history run on it in sequence, the plugin's script changing between calls.
+type session struct {
+	ps *signer.PluginSigner
+	p  *plugin
+}
+
+func newSession(keyID string, now time.Time) *session {
+	p := &plugin{now: now}
+	ps, err := signer.NewPluginSigner(p, keyID, map[string]string{"cfg": "1"})
 	if err != nil {
 		panic(err)
 	}
+	return &session{ps: ps, p: p}
+}
+
+func runCase(id int64, s *script, now time.Time, sess *session) (term string, key string, nontrivial bool, ok bool) {
+	if sess == nil {
+		sess = newSession(s.KeyID, now)
+	}
+	p, ps := sess.p, sess.ps
+	p.s, p.gs, p.ge = s, gsFacts{}, geFacts{}
+	ann := s.Desc.Ann
+	if s.AnnEmptyMap && len(ann) == 0 {
+		ann = map[string]string{}
+	}
+	desc := ocispec.Descriptor{MediaType: s.Desc.MT, Digest: digest.Digest(s.Desc.DG), Size: s.Desc.Size, Annotations: ann,
+		URLs: []string{"https://dropped.by.sanitize"}}
 	opts := notation.SignerSignOptions{SignatureMediaType: s.MT}
 	var sig []byte
 	var serr error
@@ -542,7 +621,7 @@ func rawScript(r *Rng, family string) *script {
 }
 
 func otherKeyID(r *Rng, k string) string {
-	return Pick(r, []string{k + "x", "", strings.ToUpper(k), "key2", k[1:]})
+	return Pick(r, []string{k + "x", "", strings.ToUpper(k), "key2", k[1:], k + " ", " " + k, k + "\n", k[:len(k)-1], k + "/v2", "\t" + k + " "})
 }
 
 // family: payload edits on the envelope path
@@ -584,14 +663,15 @@ func scenEnvelope(r *Rng, tier string) *script {
 	other := map[string]string{MtJWS: MtCOSE, MtCOSE: MtJWS}
 	switch op {
 	case "echo":
-		s.GEEcho = Pick(r, []string{other[s.MT], "", "application/jose", strings.ToUpper(s.MT), s.MT + " "})
+		s.GEEcho = Pick(r, []string{other[s.MT], "", "application/jose", strings.ToUpper(s.MT), s.MT + " ", " " + s.MT, s.MT + ";q=1", s.MT[:len(s.MT)-1]})
 	case "format":
 		s.GEFormat = other[s.MT]
 		if r.Bool() {
 			s.GEEcho = other[s.MT]
 		}
 	case "ctype":
-		s.GECtype = Pick(r, []string{"application/vnd.cncf.notary.payload.v2+json", "application/json", "text/plain", strings.ToUpper(MtPayload), "x"})
+		s.GECtype = Pick(r, []string{"application/vnd.cncf.notary.payload.v2+json", "application/json", "text/plain", strings.ToUpper(MtPayload), "x",
+			MtPayload + "; charset=utf-8", MtPayload + " ", " " + MtPayload, "", MtPayload[:len(MtPayload)-5], MtPayload + "x", MtPayload + "+gzip"})
 	case "chain":
 		s.GEChain = "other"
 	case "flip", "truncate", "garbage", "empty":
@@ -616,7 +696,7 @@ func scenRaw(r *Rng, tier string) *script {
 	case "dk-keyid":
 		s.DKKeyID = otherKeyID(r, s.KeyID)
 	case "dk-spec":
-		s.DKSpec = Pick(r, []string{"RSA-1024", "EC-512", "ec-256", "EC-256 ", "", "RSA-2048\x00", "RSA_2048", "ED25519"})
+		s.DKSpec = Pick(r, []string{"RSA-1024", "EC-512", "ec-256", "EC-256 ", "", "RSA-2048\x00", "RSA_2048", "ED25519", " EC-256", "EC-256\n", "EC256", "EC-0256", "Ec-256", "EC-256/0"})
 		s.GSSigner = "EC-256/0"
 	case "dk-error":
 		s.DKErr = true
@@ -754,8 +834,8 @@ func runC18(a *Args) error {
 		{"raw", 300000, 900, 12000, scenRaw},
 		{"dispatch", 400000, 240, 3000, scenDispatch},
 	}
-	emit := func(id int64, s *script) {
-		term, key, nt, ok := runCase(id, s, now)
+	emit := func(id int64, s *script, sess *session) {
+		term, key, nt, ok := runCase(id, s, now, sess)
 		if !ok {
 			w.Count("skipped", "unrepresentable-payload")
 			return
@@ -777,7 +857,7 @@ func runC18(a *Args) error {
 	for i, s := range corpusScripts(a.Corpus) {
 		id := int64(i)
 		if w.Want(id) {
-			emit(id, s)
+			emit(id, s, nil)
 		}
 	}
 	for _, f := range fams {
@@ -790,7 +870,44 @@ func runC18(a *Args) error {
 			if !w.Want(id) {
 				continue
 			}
-			emit(id, f.gen(rng.Fork(uint64(id)), a.Tier))
+			emit(id, f.gen(rng.Fork(uint64(id)), a.Tier), nil)
+		}
+	}
+	// systematic families (the same in both tiers)
+	for _, sf := range []struct {
+		base int64
+		list []*script
+	}{{500000, positionalScripts()}, {510000, matchedScripts()}, {520000, emptyAbsentScripts()}, {530000, rareSyntaxScripts()}, {540000, chainScripts()}} {
+		for i, s := range sf.list {
+			id := sf.base + int64(i)
+			if w.Want(id) {
+				emit(id, s, nil)
+			}
+		}
+	}
+	// histories: ONE signer, 2-5 calls, every step its own case (a replayed step re-runs the steps before it)
+	nh := 140
+	if a.Tier == "thorough" {
+		nh = 2800
+	}
+	for h := 0; h < nh; h++ {
+		base := int64(600000 + h*8)
+		wanted := false
+		for k := int64(0); k < 8; k++ {
+			wanted = wanted || w.Want(base+k)
+		}
+		if !wanted {
+			continue
+		}
+		steps := genHistory(rng.Fork(uint64(base)), h)
+		sess := newSession("key1", now)
+		for k, s := range steps {
+			id := base + int64(k)
+			if w.Want(id) {
+				emit(id, s, sess)
+			} else if a.Only >= 0 && id < a.Only {
+				runCase(id, s, now, sess) // bring the signer into the state the replayed step saw
+			}
 		}
 	}
 	return w.Close()
